@@ -9,7 +9,9 @@ pub mod c04;
 pub mod c06;
 pub mod c07;
 pub mod c08;
+pub mod c09;
 pub mod c10;
+pub mod c11;
 pub mod c16;
 
 pub struct Entry {
@@ -26,7 +28,7 @@ pub fn lookup(id: &str) -> Option<&'static Entry> {
     ALL.iter().find(|e| e.id == id)
 }
 
-pub static ALL: &[Entry] = &[c01::ENTRY, c02::ENTRY, c03::ENTRY, c04::ENTRY, c06::ENTRY, c07::ENTRY, c08::ENTRY, c10::ENTRY, c16::ENTRY];
+pub static ALL: &[Entry] = &[c01::ENTRY, c02::ENTRY, c03::ENTRY, c04::ENTRY, c06::ENTRY, c07::ENTRY, c08::ENTRY, c09::ENTRY, c10::ENTRY, c11::ENTRY, c11::ENTRY17, c16::ENTRY];
 
 pub fn replay(ctx: &Ctx, path: &str) -> i32 {
     common::replay_file(ctx, path)
@@ -36,6 +38,8 @@ pub fn replay_special(_ctx: &Ctx, case: &serde_json::Value) -> i32 {
     match case["kind"].as_str() {
         Some("c06") => return c06::replay(case),
         Some("c07") => return c07::replay(case),
+        Some("c09") => return c09::replay(case),
+        Some("init") => return c11::replay(case),
         _ => {}
     }
     eprintln!("no special replay for kind {}", case["kind"]);
